@@ -383,3 +383,39 @@ Proof.
   - destruct (call_error_or_same w (open_prog fam) _ Hf H0 (safe_open fam)) as [E Hi].
     destruct (run_real w (open_prog fam) _) as [x r1]. cbn [fst snd] in *. split; [exact E|intros _; apply inv_clear; exact Hi].
 Qed.
+
+(* symbol_version_table: five loads (versym, verneed + its strings, verdef + its strings), then gets *)
+Ltac mk_key := cbn [mem_key]; rewrite ?N.eqb_refl; cbn [andb orb]; rewrite ?orb_true_r; reflexivity.
+Theorem safe_symver es L : safe L (q_symver es).
+Proof.
+  unfold q_symver. destruct (is_nil (es_shdrs es)); [constructor|].
+  destruct (symver_scan (es_shdrs es) None None None) as [[[vsh|] nd] df]; [|constructor].
+  apply safe_bind; [apply safe_plift, validate_np|intros u L1 _].
+  unfold prange, q_linked, prange.
+  destruct (sh_range vsh) as [[va vb]| |] eqn:Ev; cbn [plift pbind]; [|constructor|exfalso; exact (data_range_np _ _ Ev)].
+  constructor.
+  (* needs *)
+  destruct nd as [hn|].
+  - destruct (sh_range hn) as [[na nb]| |] eqn:En; cbn [plift pbind]; [|constructor|exfalso; exact (data_range_np _ _ En)].
+    constructor. destruct (nth_n (es_shdrs es) (sh_link hn)) as [sn|]; cbn [ok_or plift pbind]; [|constructor].
+    destruct (sh_range sn) as [[nta ntb]| |] eqn:Ent; cbn [plift pbind]; [|constructor|exfalso; exact (data_range_np _ _ Ent)].
+    constructor. cbn [pbind fst snd].
+    destruct df as [hd|].
+    + destruct (sh_range hd) as [[da db]| |] eqn:Ed; cbn [plift pbind]; [|constructor|exfalso; exact (data_range_np _ _ Ed)].
+      constructor. destruct (nth_n (es_shdrs es) (sh_link hd)) as [sd|]; cbn [ok_or plift pbind]; [|constructor].
+      destruct (sh_range sd) as [[dta dtb]| |] eqn:Edt; cbn [plift pbind]; [|constructor|exfalso; exact (data_range_np _ _ Edt)].
+      constructor. cbn [pbind fst snd].
+      constructor; [mk_key|intros tb _]. constructor; [mk_key|intros b _]. cbn [pbind].
+      constructor; [mk_key|intros tb2 _]. constructor; [mk_key|intros b2 _]. cbn [pbind].
+      constructor; [mk_key|intros vb0 _]. constructor.
+    + cbn [pbind fst snd]. constructor; [mk_key|intros tb _]. constructor; [mk_key|intros b _]. cbn [pbind].
+      constructor; [mk_key|intros vb0 _]. constructor.
+  - cbn [pbind]. destruct df as [hd|].
+    + destruct (sh_range hd) as [[da db]| |] eqn:Ed; cbn [plift pbind]; [|constructor|exfalso; exact (data_range_np _ _ Ed)].
+      constructor. destruct (nth_n (es_shdrs es) (sh_link hd)) as [sd|]; cbn [ok_or plift pbind]; [|constructor].
+      destruct (sh_range sd) as [[dta dtb]| |] eqn:Edt; cbn [plift pbind]; [|constructor|exfalso; exact (data_range_np _ _ Edt)].
+      constructor. cbn [pbind fst snd].
+      constructor; [mk_key|intros tb2 _]. constructor; [mk_key|intros b2 _]. cbn [pbind].
+      constructor; [mk_key|intros vb0 _]. constructor.
+    + cbn [pbind fst snd]. constructor; [mk_key|intros vb0 _]. constructor.
+Qed.
